@@ -43,12 +43,32 @@ type BInf struct { // only ever bound with an inferred schema
 	S string
 }
 
-const bindSchema = `type BT struct { A Int  L [String]  O optional String } representation tuple`
+// a typed map whose keys are not plain strings (a struct with a string representation, an enum)
+type BK struct{ A, B string }
+type BKMap struct {
+	Keys   []BK
+	Values map[BK]int64
+}
+type BEMap struct {
+	Keys   []string
+	Values map[string]int64
+}
+
+const bindSchema = `type BT struct { A Int  L [String]  O optional String } representation tuple
+type BK struct { A String  B String } representation stringjoin { join ":" }
+type BKMap {BK:Int}
+type BE enum {
+  | Red ("r")
+  | Green
+}
+type BEMap {BE:Int}`
 
 // World is the set of shared objects of one execution.
 type World struct {
 	Basic     datamodel.Node
 	Bind      schema.TypedNode
+	BindKMap  schema.TypedNode // map with stringjoin-struct keys
+	BindEMap  schema.TypedNode // map with enum keys
 	Gen       datamodel.Node
 	Large     datamodel.Node
 	Sel       selector.Selector
@@ -81,6 +101,8 @@ func NewWorld() *World {
 	o := "opt"
 	w.Bind = bindnode.Wrap(&BT{A: 5, L: []string{"p", "q"}, O: &o}, ts.TypeByName("BT"))
 	w.BindProto = bindnode.Prototype(&BT{}, ts.TypeByName("BT"))
+	w.BindKMap = bindnode.Wrap(&BKMap{Keys: []BK{{"x", "y"}, {"p", "q"}, {"m", "n"}}, Values: map[BK]int64{{"x", "y"}: 1, {"p", "q"}: 2, {"m", "n"}: 3}}, ts.TypeByName("BKMap"))
+	w.BindEMap = bindnode.Wrap(&BEMap{Keys: []string{"Red", "Green"}, Values: map[string]int64{"Red": 1, "Green": 2}}, ts.TypeByName("BEMap"))
 	nb := gendemo.Type.Msg3.NewBuilder()
 	ref.Assign(nb, ref.Map(ref.E("whee", ref.Int(1)), ref.E("woot", ref.Int(2)), ref.E("waga", ref.Int(3))))
 	w.Gen = nb.Build()
@@ -122,7 +144,7 @@ func NewWorld() *World {
 // Shared returns the named shared objects whose fingerprints must not change under read-only use.
 func (w *World) Shared() map[string]interface{} {
 	return map[string]interface{}{
-		"basic-node": w.Basic, "bindnode-node": w.Bind, "generated-node": w.Gen, "reader-backed-bytes-node": w.Large,
+		"basic-node": w.Basic, "bindnode-node": w.Bind, "bindnode-map-with-struct-keys": w.BindKMap, "bindnode-map-with-enum-keys": w.BindEMap, "generated-node": w.Gen, "reader-backed-bytes-node": w.Large,
 		"compiled-selector": w.Sel, "compiled-selector-limited-all": w.SelLimA, "compiled-selector-limited-fields": w.SelLimF, "config-unset": w.CfgUnset, "config-set": w.CfgSet, "type-system": w.TS,
 		"bindnode-prototype": w.BindProto, "link-system": w.LS, "memstore": w.MemStore, "cidlink-memory": w.CidMem,
 		"bindnode.defaultTypeSystem": bindnode.VerifDefaultTypeSystem(), "multicodec.DefaultRegistry": &multicodec.DefaultRegistry,
@@ -167,6 +189,39 @@ func Ops() []Op {
 			v, _ := ref.ObserveTyped(w.Bind)
 			r, _ := ref.ObserveTyped(w.Bind.Representation())
 			return v.Key() + r.Key()
+		}},
+		{"lookup-bindnode-map-with-complex-keys", func(w *World) string {
+			var out []string
+			for _, k := range []string{"x:y", "p:q", "m:n", "no:key"} {
+				for _, m := range []datamodel.Node{w.BindKMap, w.BindKMap.Representation()} {
+					n, err := m.LookupByString(k)
+					if err != nil {
+						out = append(out, "err")
+						continue
+					}
+					out = append(out, obs(n))
+					n, err = m.LookupBySegment(datamodel.PathSegmentOfString(k))
+					if err == nil {
+						out = append(out, obs(n))
+					}
+				}
+			}
+			for _, k := range []string{"Red", "Green", "r"} {
+				for _, m := range []datamodel.Node{w.BindEMap, w.BindEMap.Representation()} {
+					n, err := m.LookupByString(k)
+					if err != nil {
+						out = append(out, "err")
+						continue
+					}
+					out = append(out, obs(n))
+				}
+			}
+			return fmt.Sprint(out)
+		}},
+		{"observe-bindnode-map-with-complex-keys", func(w *World) string {
+			v, _ := ref.ObserveTyped(w.BindKMap)
+			r, _ := ref.ObserveTyped(w.BindKMap.Representation())
+			return v.Key() + r.Key() + encode(w.BindKMap.Representation(), false)
 		}},
 		{"observe-generated", func(w *World) string {
 			v, _ := ref.ObserveTyped(w.Gen)
